@@ -184,6 +184,7 @@ def _bit_axioms(terms):
     """
     out = []
     seen = set()
+    shls = []
 
     def walk(e):
         if e.get_id() in seen:
@@ -196,6 +197,9 @@ def _bit_axioms(terms):
                 out.append(z3.Implies(k >= 0, e == b * pow2_f(k)))
                 out.append(z3.Implies(k >= 0, pow2_f(k) >= 1))
                 out.append(z3.Implies(z3.And(k >= 0, b >= 0), e >= 0))
+                # a 7-bit group shifted left by k stays below 2^(k+7): the linear form of  b * 2^k <= 127 * 2^k
+                out.append(z3.Implies(z3.And(k >= 0, b >= 0, b < 128), e <= 127 * pow2_f(k)))
+                shls.append(e)
             if d.eq(bor_f):
                 a, s = e.arg(0), e.arg(1)
                 out.append(z3.Implies(z3.And(a >= 0, s >= 0), e >= 0))
@@ -212,6 +216,17 @@ def _bit_axioms(terms):
 
     for t in terms:
         walk(t)
+    # the same value shifted by amounts that differ by a constant:  b << (k + d) = 2^d * (b << k)   (linear, no product of unknowns)
+    for i, x in enumerate(shls):
+        for y in shls[i + 1:]:
+            if x.arg(0).eq(y.arg(0)):
+                dd = z3.simplify(x.arg(1) - y.arg(1))
+                if z3.is_int_value(dd):
+                    dv = dd.as_long()
+                    if 0 < dv <= 64:
+                        out.append(z3.Implies(y.arg(1) >= 0, x == (1 << dv) * y))
+                    elif -64 <= dv < 0:
+                        out.append(z3.Implies(x.arg(1) >= 0, y == (1 << -dv) * x))
     # shl applications whose shift amounts differ by a constant: pow2(a) = 2^d * pow2(b)
     ks = []
     seen_k = set()
